@@ -30,7 +30,7 @@ WEIGHTS = dict(block=4, scope=2.5, label=5, data=6, ins=2, assign=2, sym=1.5, ma
 
 
 def plan(tier: str, seed: int) -> list[dict]:
-    n, per = (16, 60) if tier == "quick" else (64, 470)
+    n, per = (32, 90) if tier == "quick" else (64, 470)
     return [{"seed": seed * 100_000 + i, "n": per} for i in range(n)]
 
 
